@@ -21,6 +21,19 @@ Proof. reflexivity. Qed.
 Lemma gen_params_ok : params_ok gen_params = true.
 Proof. vm_compute. reflexivity. Qed.
 
+(** the parameters of the code the model was first written against; used by
+    the examples of Props/C19.v so that they do not depend on the current
+    source (the theorems do: they are stated for [gen_params]) *)
+Definition deployed_params : lparams :=
+  mkP [(KLayer, true); (KName, true)]
+      [(KNCritIns, false); (KNCritOuts, false); (KName, true)]
+      [(-1)%Z; 0%Z; 1%Z]
+      [mkSnap [((-2)%Z, true); ((-1)%Z, false)] (-1)%Z;
+       mkSnap [((-1)%Z, false); (2%Z, true); (1%Z, false)] 1%Z].
+
+Lemma deployed_params_ok : params_ok deployed_params = true.
+Proof. vm_compute. reflexivity. Qed.
+
 Fixpoint sassoc (n : string) (l : list (string * string)) : option string :=
   match l with
   | [] => None
